@@ -59,6 +59,7 @@ def lean_audit(prop):
             txt = open(os.path.join(root, f)).read()
             txt = re.sub(r"/-.*?-/", "", txt, flags=re.S)
             for ln in txt.splitlines():
+                ln = re.sub(r'"(\\.|[^"\\])*"', '""', ln)     # string literals (generated tables quote Rust source)
                 ln = ln.split("--")[0]
                 if bad.search(ln): res["problems"].append("%s: forbidden construct: %s" % (f, ln.strip()[:80]))
     # axioms of every theorem of the property file
